@@ -32,7 +32,7 @@ TReset ==
   /\ closeQ' = <<>> /\ logq' = <<>> /\ closed' = FALSE
   /\ ended' = [i \in Inst |-> 0] /\ unsubbed' = [i \in Ids |-> FALSE] /\ lateWrite' = FALSE
   /\ believes' = [i \in Ids |-> FALSE] /\ cause' = [i \in Inst |-> "none"]
-  /\ nextInst' = 1 /\ msgs' = 0
+  /\ nextInst' = 1 /\ msgs' = 0 /\ ctxc' = FALSE
 
 \* what clients may be told: sanitised texts only (C16)
 Generic == [k |-> "s", s |-> "Internal server error"]
@@ -64,12 +64,24 @@ TSubOK ==
           /\ Ev.wrote = (d # NoDiff \/ iinit[i])
           /\ (Ev.wrote /\ d # NoDiff) => Norm(ClientMerge(client[Ev.id], Ev.msg)) = Strip(cur))
 TSubFail ==
-  /\ IsEv("sub.fail")
+  /\ IsEv("sub.fail") /\ Ev.kind # "ctx"
   /\ TheInst(Ev.id, LAMBDA i :
        /\ SubRunFail(i)
        /\ CASE Ev.kind = "initial" -> iinit[i] /\ Ev.wrote /\ Ev.msg = Generic      \* reported once, generic text
             [] Ev.kind = "retry" -> ~iinit[i] /\ ~Ev.wrote                           \* later failures are retried silently
             [] OTHER -> FALSE)
+\* a run ends with a cancelled-context error: either the connection's context is cancelled, or somebody is in the
+\* middle of stopping exactly this subscription (Stop cancels, then waits for the run; the harness sees that in the log)
+SubRunStopped(i) ==
+  /\ ist[i] = "run" /\ ikind[i] = "sub"
+  /\ ist' = [ist EXCEPT ![i] = "ended"]
+  /\ ended' = [ended EXCEPT ![i] = @ + 1]
+  /\ cause' = [cause EXCEPT ![i] = "self"]
+  /\ closeQ' = BAdd(closeQ, <<iid[i], i>>)
+  /\ UNCHANGED <<subs, iid, ikind, iq, iinit, iprev, iread, ipend, data, client, gotFirst, logq, closed, unsubbed, lateWrite, believes, nextInst, msgs, ctxc>>
+TSubCancelled == IsEv("sub.cancelled") /\ ~Ev.wrote /\
+   TheInst(Ev.id, LAMBDA i : IF Ev.found THEN SubRunStopped(i) ELSE SubRunCancelled(i))
+TCtxCancel == IsEv("ctx.cancel") /\ CtxCancel
 TMutDone == IsEv("mut.done") /\ Ev.wrote /\ TheInst(Ev.id, LAMBDA i : MutDone(i)) /\ (Ev.ok => Ev.typ = "result")
                              /\ (~Ev.ok => Ev.typ = "error" /\ NoSecret(Ev.msg))
 TAsyncClose ==
@@ -87,7 +99,7 @@ TSilent == /\ l <= Len(Trace) /\ silent < K /\ silent' = silent + 1 /\ UNCHANGED
            /\ \E i \in Inst : Invalidate(i)
 
 TNext == TReset \/ TSubAccepted \/ TRejected \/ TRejectWritten \/ TUnsubscribe \/ TMutAccepted \/ TEcho \/ TRunStart \/ TRunRead \/ TData
-         \/ TSubOK \/ TSubFail \/ TMutDone \/ TAsyncClose \/ TSocketClosed \/ TQuiesce \/ TSilent
+         \/ TSubOK \/ TSubFail \/ TSubCancelled \/ TCtxCancel \/ TMutDone \/ TAsyncClose \/ TSocketClosed \/ TQuiesce \/ TSilent
 TSpec == TInit /\ [][TNext]_tvars
 HW == TLCSet(1, IF TLCGet(1) < l THEN l ELSE TLCGet(1))
 Accepted == IF TLCGet(1) = Len(Trace) + 1 THEN TRUE
